@@ -251,7 +251,7 @@ def make_policy(cfg, rng):
 class RunResult:
     __slots__ = (
         "outcome", "hang", "out", "probes", "fault_log", "trace", "decisions", "digest", "sig", "steps",
-        "sim_seconds", "timeout_seconds", "nprocs", "deaths", "unsupported", "harness_error", "max_alive", "replay_misses",
+        "sim_seconds", "timeout_seconds", "nprocs", "deaths", "api_deaths", "unsupported", "harness_error", "max_alive", "replay_misses",
     )
 
     def to_json(self):
@@ -342,7 +342,10 @@ def run_sim(repo, paths, cfg, decisions=None, keep_trace=True):
     r.sim_seconds = kernel.now
     r.timeout_seconds = kernel.sim_timeout_seconds
     r.nprocs = len(world.procs)
-    r.deaths = [dict(p.death_info, victim=p.ordinal) for p in world.procs if p.died_abnormally]
+    # deaths brought about by the program itself (terminate()/kill()/interpreter exit) are not worker failures
+    all_deaths = [dict(p.death_info, victim=p.ordinal) for p in world.procs if p.died_abnormally]
+    r.deaths = [d for d in all_deaths if d.get("how") not in ("api", "atexit")]
+    r.api_deaths = len(all_deaths) - len(r.deaths)
     r.unsupported = world.outcome[1] if world.outcome and world.outcome[0] == "unsupported" else None
     if r.unsupported is None:
         for t in kernel.trace:
